@@ -871,6 +871,13 @@ class Flow:
             if not ds and not is_param:
                 continue
             b = bind if sc is fn else None
+            if ds and sc is fn and node is not None and len(ds) >= 2 and \
+                    not is_param:
+                rd = self._reaching_values(name, ds, fn, node)
+                if rd is not None:
+                    for expr in rd:
+                        out |= self.atoms(expr, fn, bind, depth, _seen)
+                    return out
             if ds:
                 out |= self._locals_table(sc, b, depth).get(name, set())
             if is_param:
@@ -897,6 +904,50 @@ class Flow:
                     sub = sub | {'const:' + repr(v)}
             return sub | {name}
         return {name}
+
+    def _reaching_values(self, name, ds, fn, use):
+        """For a local bound only by plain assignments `name = expr`: the
+        value expressions of the assignments that can reach this use (a
+        proper subset of all of them), else None (no refinement)."""
+        if any(kind != 'value' for kind, expr, idx in ds):
+            return None
+        sts = []
+        for kind, expr, idx in ds:
+            st = getattr(expr, '_parent', None)
+            if not isinstance(st, ast.Assign) or st.value is not expr or \
+                    len(st.targets) != 1 or not isinstance(
+                        st.targets[0], ast.Name):
+                return None
+            sts.append((st, expr))
+        g = self._cfgs.get(fn.fq) if hasattr(self, '_cfgs') else None
+        if not hasattr(self, '_cfgs'):
+            self._cfgs = {}
+        if g is None:
+            try:
+                g = self._cfgs[fn.fq] = build_cfg(fn.node)
+            except Exception:
+                self._cfgs[fn.fq] = False
+                return None
+        if g is False:
+            return None
+        try:
+            u = g.stmt_of(use)
+        except Exception:
+            return None
+        out = []
+        allst = [st for st, e in sts]
+        for st, expr in sts:
+            if st is u:
+                continue
+            try:
+                if g.reaches(st, u, avoiding=[x for x in allst
+                                              if x is not st]):
+                    out.append(expr)
+            except Exception:
+                return None
+        if not out or len(out) == len(sts):
+            return None
+        return out
 
     def _selectable(self, e, fn, depth):
         """Can position idx of `e` be selected statically (a tuple/list
